@@ -3,7 +3,7 @@
 import json, subprocess
 props=[json.loads(l) for l in open('/verif/properties.jsonl')]
 ids=[p['id'] for p in props]
-hooks_commits=["d88d5c6","b12d0fc","c8c01cf"]
+hooks_commits=["d88d5c6","b12d0fc","c8c01cf", "a8c51c9"]
 C={}
 def chk(pid, level, text, note, technique, ref, engine):
     C[pid]={"property_id":pid,"quick_cmd":"./check %s quick"%pid,"thorough_cmd":"./check %s thorough"%pid,
